@@ -15,6 +15,7 @@
 //!                 e: 0 false, 1 true, 2 the hook call panicked, 3 not applicable
 //!   <applies>::= Skipped | (Refs [ (R "trait ref" [a ...]) ... ])    a: 0 no, 1 yes, 2 ambiguous/panic
 //! Impls are numbered per trait in program order (0-based), never by internal id.
+//! Sub-command `orphan` (C20): see `orphan_case`.
 use chalk_integration::db::ChalkDatabase;
 use chalk_integration::interner::ChalkIr;
 use chalk_integration::program::Program;
@@ -313,16 +314,104 @@ fn applies_tables(text: &str, depth: u64, max_refs: usize) -> Vec<Sexp> {
     out
 }
 
+/// C20: `perform_orphan_check` for every local impl (program order), with both solvers.
+///   (Orph [(I <idx> "<trait>" <slg> <rec>) ...])   result: Allowed | Rejected | (Panic "msg")
+///   (Orph (LowerErr "msg"))
+fn orphan_case(text: &str) -> Sexp {
+    use chalk_solve::coherence::orphan::perform_orphan_check;
+    let db = ChalkDatabase::with(text, SolverChoice::slg_default());
+    let program: Arc<Program> = match db.program_ir() {
+        Ok(p) => p,
+        Err(e) => return Sexp::app("Orph", vec![Sexp::app("LowerErr", vec![Sexp::string(&format!("{}", e))])]),
+    };
+    let mut rows = Vec::new();
+    tls::set_current_program(&program, || {
+        let mut impls: Vec<ImplId<ChalkIr>> = program
+            .impl_data
+            .iter()
+            .filter(|(_, d)| d.impl_type == ImplType::Local)
+            .map(|(&id, _)| id)
+            .collect();
+        impls.sort();
+        for (i, &id) in impls.iter().enumerate() {
+            let mut cols = vec![
+                Sexp::num(i as u64),
+                Sexp::string(&format!("{:?}", program.impl_data[&id].trait_id())),
+            ];
+            for choice in [SolverChoice::slg_default(), SolverChoice::recursive_default()] {
+                let r = guarded(|| {
+                    let mut solver = choice.into_solver();
+                    perform_orphan_check::<ChalkIr>(&db, &mut *solver, id)
+                });
+                cols.push(match r {
+                    Ok(Ok(())) => Sexp::atom("Allowed"),
+                    Ok(Err(_)) => Sexp::atom("Rejected"),
+                    Err(p) => Sexp::app("Panic", vec![Sexp::string(&p)]),
+                });
+            }
+            rows.push(Sexp::app("I", cols));
+        }
+    });
+    Sexp::app("Orph", vec![Sexp::list(rows)])
+}
+
+/// C20: single goals.  Case `(Goals "<program>" ["<goal>" ...])`; result
+///   (GoalsRes [(G <slg> <rec>) ...])  each: Yes (unique) | No | Amb | (Panic "m") | (Err "m")
+fn goals_case(case: &Sexp) -> Result<Sexp, String> {
+    use chalk_integration::lowering::lower_goal;
+    let text = case.args()[0].as_str()?.to_string();
+    let goals = case.args()[1].as_list()?;
+    let db = ChalkDatabase::with(&text, SolverChoice::slg_default());
+    let program: Arc<Program> = match db.program_ir() {
+        Ok(p) => p,
+        Err(e) => return Ok(Sexp::app("GoalsRes", vec![Sexp::app("LowerErr", vec![Sexp::string(&format!("{}", e))])])),
+    };
+    let mut rows = Vec::new();
+    tls::set_current_program(&program, || -> Result<(), String> {
+        for g in goals {
+            let gt = g.as_str()?;
+            let parsed = chalk_parse::parse_goal(gt).map_err(|e| format!("{}", e));
+            let lowered = parsed.and_then(|p| lower_goal(&*p, &*program).map_err(|e| format!("{}", e)));
+            let goal = match lowered {
+                Ok(g) => g.into_peeled_goal(ChalkIr),
+                Err(e) => {
+                    rows.push(Sexp::app("G", vec![Sexp::app("Err", vec![Sexp::string(&e)]), Sexp::app("Err", vec![Sexp::string(&e)])]));
+                    continue;
+                }
+            };
+            let mut cols = Vec::new();
+            for choice in [SolverChoice::slg_default(), SolverChoice::recursive_default()] {
+                cols.push(match guarded(|| choice.into_solver().solve(&db, &goal)) {
+                    Ok(Some(Solution::Unique(_))) => Sexp::atom("Yes"),
+                    Ok(Some(Solution::Ambig(_))) => Sexp::atom("Amb"),
+                    Ok(None) => Sexp::atom("No"),
+                    Err(p) => Sexp::app("Panic", vec![Sexp::string(&p)]),
+                });
+            }
+            rows.push(Sexp::app("G", cols));
+        }
+        Ok(())
+    })?;
+    Ok(Sexp::app("GoalsRes", vec![Sexp::list(rows)]))
+}
+
 fn main() {
     // `run`: everything; `core`: only the whole-program query `db.coherence()` per solver
-    let full = std::env::args().nth(1).map(|a| a != "core").unwrap_or(true);
+    let sub = std::env::args().nth(1).unwrap_or_else(|| "run".to_string());
+    let full = sub != "core";
     run_batch(|case| {
+        if case.head() == Some("Goals") && case.args().len() == 2 {
+            return goals_case(case);
+        }
         if case.head() != Some("Case") || case.args().len() != 3 {
             return Err("expected (Case \"text\" depth max_refs)".to_string());
         }
         let text = case.args()[0].as_str()?.to_string();
         let depth = case.args()[1].as_num()?;
         let max_refs = case.args()[2].as_num()? as usize;
+        if sub == "orphan" {
+            return Ok(orphan_case(&text));
+        }
         let a = one_solver(&text, "slg", SolverChoice::slg_default(), full);
         if a.head() == Some("LowerErr") {
             return Ok(Sexp::app("Res", vec![a, Sexp::list(vec![]), Sexp::list(vec![])]));
